@@ -130,6 +130,25 @@ def run(chk):
         iters = r.choice([1, 2, 3])
         seed = r.randint(0, 1000)
         m = fa.make_machine("jfa", copy.deepcopy(ubm), rU, rV, em_iterations=iters, random_state=seed)
+        if i % 4 == 3:
+            # the UBM's variances are changed AFTER the machine was constructed on it (re-estimated / floors raised): training uses the
+            # variances in force when it runs, everywhere
+            gq = gen.nprng(r)
+            m.ubm.variances = np.asarray(m.ubm.variances) * gq.uniform(0.4, 2.5, size=np.asarray(m.ubm.variances).shape)
+            ubm = m.ubm
+        if i % 3 == 1:
+            # the initial subspaces given as column-major arrays (a transposed checkpoint): the same matrices
+            m.V = np.asfortranarray(np.asarray(m.V, dtype=float))
+            m.U = np.asfortranarray(np.asarray(m.U, dtype=float))
+            ma_, mb_ = copy.deepcopy(m), copy.deepcopy(m)
+            mb_.V, mb_.U = np.ascontiguousarray(np.asarray(m.V)), np.ascontiguousarray(np.asarray(m.U))
+            for mm_ in (ma_, mb_):
+                na_, fa_ = mm_.initialize(X, y, n_classes=K)
+                mm_.m_step_v([mm_.e_step_v(X, y, per, na_, fa_)])
+            chk.count(1, key=("column-major initial subspaces", rV))
+            if not np.allclose(np.asarray(ma_.V), np.asarray(mb_.V), rtol=1e-10, atol=1e-12):
+                chk.fail("one V-phase E/M pair started from a column-major (Fortran-ordered) V gives another V than from the same matrix in row-major order (rank %d)" % rV,
+                         dict(fa.dump_machine(m, "jfa"), classes=[fa.dump_stats(Xi) for Xi in classes], labels=[int(a) for a in y], layout="F"))
         m0 = copy.deepcopy(m)
         ctx = dict(fa.dump_machine(m, "jfa"), classes=[fa.dump_stats(Xi) for Xi in classes], labels=[int(a) for a in y], em_iterations=iters)
         tolr = 1e-8
